@@ -35,6 +35,7 @@ const (
 	verifTickSrvReqTimer
 	verifTickSrvIdle
 	verifTickSrvOpening
+	verifTickCliGoAwaySweep
 )
 
 func verifTick(which int)                                                  {}
